@@ -215,10 +215,11 @@ def plan(tier):
 
 
 def work(unit):
-    params, depth, seed, cap = unit
+    params, depth, seed, cap, chunk, nchunks = unit
     ab = run.shuffled(alphabet(), seed, 'dj')
     part = seq.bfs(lambda: DjangoWorld(params), ab, depth,
-                   allow=c03.allow_ticks(2), label='django', time_cap=cap)
+                   allow=c03.allow_ticks(2), label='django', time_cap=cap,
+                   first=ab[chunk::nchunks])
     part['label'] = 'bfs/django'
     return part
 
@@ -227,8 +228,8 @@ def main(tier, seed):
     rep = run.Report('C19', tier, seed, TECHNIQUE)
     depth = 3
     cap = 200 if tier == 'quick' else 3000
-    units = [(p, depth if tier == 'quick' else 4, seed, cap)
-             for p in plan(tier)]
+    units = [(p, depth if tier == 'quick' else 4, seed, cap, ch, 4)
+             for p in plan(tier) for ch in range(4)]
     units = run.shuffled(units, seed)
     for part in run.pmap(work, units):
         rep.merge(part, part.get('label'))
